@@ -194,6 +194,18 @@ def run_e2e(ck, files, res):
             return
         rc1, so, se = L.run_bin(os.path.join(d, "prog_llgo"), timeout=600)
         res["llgo"] = (rc1, so, se)
+        # small separate program: one generic type instantiated as Node[byte] and as Node[uint8]
+        d2 = os.path.join(ck.work, "prog_alias")
+        e2e.write_module(d2, {"main.go": open(os.path.join(H, "e2e_alias", "main.go.txt")).read()}, gen.MOD)
+        rc, out = L.build(d2, os.path.join(d2, "prog_llgo"), timeout=900)
+        a = {"llgo_build_rc": rc, "llgo_build_log": out[-1500:]}
+        if rc == 0:
+            a["llgo_run"] = L.run_bin(os.path.join(d2, "prog_llgo"), timeout=60)
+        rcg, outg = e2e.go_build(d2, os.path.join(d2, "prog_go"))
+        a["go_build_rc"] = rcg
+        if rcg == 0:
+            a["go_run"] = e2e.run_plain(os.path.join(d2, "prog_go"), timeout=60)
+        res["alias"] = a
     except Exception as ex:  # noqa
         res["err"] = "e2e exception: %r" % (ex,)
 
@@ -385,6 +397,24 @@ def run(ck):
             for kk in key:
                 ck.violation(kk, "%s: llgo %r, go %r" % (k, lv[:300], gv[:300]),
                              {"probe": k, "type": gen.gosrc(t) if t else None, "llgo": lv, "go": gv})
+        # the byte / uint8 instantiation program
+        al = eres.get("alias")
+        if al:
+            if al.get("go_build_rc") != 0 or al.get("go_run", (1,))[0] != 0:
+                ck.correspondence_broken("harness:e2e_alias", al)
+            elif al["llgo_build_rc"] != 0:
+                log = al["llgo_build_log"]
+                if "undefined reference" in log and "Node[" in log:
+                    ck.violation("generic-instance-byte-uint8-spelling-link-failure",
+                                 "a program that uses Node[byte] and Node[uint8] (one type) does not link under llgo: " +
+                                 "; ".join(re.findall(r"undefined reference to `([^']+)'", log)[:3]),
+                                 {"program": "props/C15/harness/e2e_alias/main.go.txt", "log": log[-600:]})
+                else:
+                    ck.violation("e2e-alias-program-build-failed", "llgo does not build the byte/uint8 instantiation program", {"log": log[-800:]})
+            else:
+                lr, gr = al["llgo_run"], al["go_run"]
+                if lr[0] != gr[0] or (lr[1] + lr[2]).strip() != (gr[1] + gr[2]).strip():
+                    ck.violation("e2e-alias-program-output-differs", "byte/uint8 instantiation program: llgo %r, go %r" % (lr, gr), {"llgo": lr, "go": gr})
         # DeepEqual: observed results of the llgo-built program vs the Coq model
         de_terms, de_names = [], []
         for name, (hp, a, b) in DE_MODEL.items():
@@ -492,8 +522,14 @@ def classify_e2e(k, attr, fam, lv, gv, t):
     known, _ = classify_line(k, lv, gv)
     if known:
         return known
+    if attr.startswith("Call") and lv == "PANIC bad type def":
+        return ["reflect-call-zero-size-result-panics"]
+    if k.startswith("FB.") and re.sub(r" \d+ value:", " _ value:", lv) == re.sub(r" \d+ value:", " _ value:", gv):
+        return ["reflect-layout-struct-trailing-zero-size-field"]     # only the Offset column differs
     if t is not None:
         fs = gen.value_features(t)
+        if "trailing-zero-size" in fs and re.match(r"(DeepEqual|dump|fmt|Sprint|setAll|Call|Field|Size|Zero|TypeOf)", attr):
+            return ["reflect-layout-struct-trailing-zero-size-field"]
         if "named-func" in fs:
             return ["reflect-named-func-type-is-closure-struct"]
         if "typearg-literal" in fs and "[" in lv:
